@@ -225,7 +225,7 @@ LALPH = ("S H E P # X TAB * $ + 1 : SP", 3, 4)
 DOCS = [
     ("gfa1", "standard", ["S\tA\tACGT", "S\tB\t*\tLN:i:6", "S\tC\t*", "L\tA\t+\tB\t+\t2M", "L\tB\t+\tC\t-\t*",
                           "C\tA\t+\tB\t+\t1\t2M", "P\tp\tA+,B+\t2M", "P\tq\tA+,B+,C-\t*"]),
-    ("gfa2", "standard", ["S\ta\t4\tACGT", "S\tb\t6\t*", "S\tc\t3\t*", "E\te1\ta+\tb+\t2\t4$\t0\t2\t2M",
+    ("gfa2", "standard", ["S\ta\t4\tACGT", "S\tb\t6\tACGTAC", "S\tc\t3\tACG", "E\te1\ta+\tb+\t2\t4$\t0\t2\t2M",
                           "E\t*\ta+\tc-\t0\t2\t1\t3$\t*", "G\tg\ta+\tb-\t10\t5", "F\ta\tx+\t0\t2\t0\t2\t*",
                           "O\to\ta+ e1+ b+", "U\tu\ta e1 g o"]),
     ("gfa1", "rgfa", ["S\ts1\tACG\tSN:Z:chr1\tSO:i:0\tSR:i:0", "S\ts2\t*\tSN:Z:chr1\tSO:i:3\tSR:i:0",
@@ -248,7 +248,7 @@ VARIANTS = [
     (2, "sub", 7, "F\ta\tx+\t0\t3$\t0\t2\t*"), (2, "sub", 7, "F\ta\tx+\t0\t4$\t0\t2\t*"),
     (2, "sub", 7, "F\ta\tx+\t3\t2\t0\t2\t*"), (2, "sub", 7, "F\tb\tx+\t0\t5$\t0\t2\t*"),
     (2, "sub", 8, "O\to\ta+ z+ b+"), (2, "sub", 9, "U\tu\ta z"), (2, "del", 4, ""), (2, "del", 6, ""),
-    (2, "del", 2, ""), (2, "add", 0, "U\tv\tu o"), (2, "add", 0, "O\tw\to- c+"), (2, "add", 0, "X\tcustom\t1"),
+    (2, "del", 2, ""), (2, "sub", 2, "S\tb\t6\t*"), (2, "sub", 2, "S\tb\t7\tACGTAC"), (2, "add", 0, "U\tv\tu o"), (2, "add", 0, "O\tw\to- c+"), (2, "add", 0, "X\tcustom\t1"),
     (3, "add", 0, "H\tVN:Z:1.0"), (3, "add", 0, "C\ts1\t+\ts2\t+\t0\t*"), (3, "add", 0, "P\tp\ts1+,s2+\t*"),
     (3, "sub", 1, "S\ts1\tACG\tSO:i:0\tSR:i:0"), (3, "sub", 1, "S\ts1\tACG\tSN:Z:chr1\tSR:i:0"),
     (3, "sub", 1, "S\ts1\tACG\tSN:Z:chr1\tSO:i:0"), (3, "sub", 1, "S\ts1\tACG\tSN:i:1\tSO:i:0\tSR:i:0"),
@@ -279,8 +279,9 @@ API_LINES = [("gfa1", "S\tA\tACGT\tLN:i:4\txx:Z:a b"), ("gfa1", "L\tA\t+\tB\t-\t
              ("gfa1", "H\tVN:Z:1.0\txx:i:1"), ("gfa1", "# c"), ("gfa2", "S\ta\t4\tACGT"),
              ("gfa2", "E\te1\ta+\tb+\t2\t4$\t0\t2\t2M\tTS:i:5"), ("gfa2", "G\tg\ta+\tb-\t10\t*"),
              ("gfa2", "U\tu\ta b"), ("gfa2", "X\tcustom\t1\txx:i:1")]
-API_FIELDS = ["name", "sequence", "xx", "LN", "zz", "VN", "TS", "ID", "overlap", "from_segment", "segment_names", "items",
-              "sid1", "beg1", "alignment", "var", "field1", "record_type", "content", "", "x", "xxx", "1x", "x_", "na me",
+# field names: the line's own first / last positional field and first tag (resolved on the line), an
+# undefined well-formed tag, predefined tags, the `name` alias, "*", "" and malformed names
+API_FIELDS = ["@first", "@last", "@tag", "zz", "LN", "VN", "TS", "ID", "name", "*", "", "x", "xxx", "1x", "x_", "na me",
               NONASCII, "\t", "a" * 300]
 API_VALUES = ["1", "abc", "", "*", "a\tb", "a\nb", NONASCII, "1_0", "+", "A+,B+", "2M", "[1]", "{", "5$", "$"]
 API_DTYPES = ["i", "Z", "J", "H", "B", "f", "A", "q", "", "ii", "position_gfa2", "generic"]
@@ -589,6 +590,13 @@ class Runner:
     def api_line_rows(self, ver, text, field, connect):
         G = self.gfapy
         rows, lv, cfg = [], [], []
+        if field.startswith("@"):       # a field name of this very line
+            st, ln = self.call(G.Line, text, version=ver)
+            names = (list(ln.positional_fieldnames), list(ln.tagnames)) if st == "ok" else ([], [])
+            pick = {"@first": names[0][:1], "@last": names[0][-1:], "@tag": names[1][:1]}[field]
+            if not pick:
+                return [["na"]], [0], ["line has no such field: " + field]
+            field = pick[0]
         for k in (0, 1, 2, 3):
             def fresh():
                 ln = G.Line(text, vlevel=k, version=ver)
